@@ -76,3 +76,10 @@ claim("C10", "differential monitor: numpy paste of the planned regions vs GDAL n
       "source region must be the destination region times the factor; paste_ok must agree with how the pair was built (integer scale and whole-pixel shift within ttol/stol on either side of "
       "the tolerance, per axis; never for rotation/shear/fractional scale). ~1.8e3 pairs and ~9e3 warps quick, 3e4 / 1.5e5 thorough.",
       _TB + " GDAL is the reference warper; only binary-exact grids so ties cannot occur.", "DESIGN.md 5/C10")
+
+claim("C11", "post-condition monitor on compute_output_geobox (also reached via GeoBox.to_crs and .odc.output_geobox): all source pixel corners projected with the oracle's own pyproj transformer",
+      "Result must be axis-aligned in the requested CRS and contain every projected source pixel corner up to tol output pixels; default anchor => edges on multiples of the pixel size; "
+      "shared units with auto/same => source resolution; explicit resolution exact; shape requests exact (integer: n, or n+1 only with snapping) and displaced < 1 px + the 0.9 source-pixel "
+      "buffer; same CRS + defaults => identical object; utm / utm-n / utm-s => UTM zone set, requested hemisphere, valid area overlapping the raster. ~550 requests quick / 1.2e4 thorough "
+      "plus fixed many-pixel curvature probes.",
+      _TB + " Rasters above 7e4 corners use every outline corner and every 7th interior one.", "DESIGN.md 5/C11")
